@@ -118,7 +118,7 @@ def main():
     out = os.path.join(root, "mutants_results.jsonl")
     env = f"VERIF_ROOT={root} VERIF_SEED=1 CARGO_NET_OFFLINE=true"
     for (prop, name, f, old, new) in M:
-        if props and prop not in props:
+        if props and prop not in props and name not in props:
             continue
         p = os.path.join(repo, f)
         s = open(p).read()
